@@ -107,10 +107,11 @@ class RefsExtractor(ConversionsVisitor, ObjectVisitor, WithConversionsResolver):
 
     def object(self, tp: AnyType, fields: Sequence[ObjectField]):
         if parent := get_discriminated_parent(get_origin_or_type(tp)):
-            # Increment twice in order to ensure ref count > 1, as the parent is
-            # always referenced by its subclasses schemas
+            # The parent is always referenced by its subclasses schemas: visit it (and
+            # not only count it, otherwise it would be considered as already visited),
+            # twice in order to ensure ref count > 1
             for _ in range(2):
-                self._incr_ref(get_type_name(parent).json_schema, parent)
+                self.visit(parent)
         for field in fields:
             self.visit_with_conv(field.type, self._field_conversion(field))
 
